@@ -15,6 +15,8 @@ func checkC18(c *Ctx) {
 	c.Rule("C18-R1", "InjectKeyBytes: prefix loop bound includes len(b); input advanced by the decoder's nSrc")
 	c.Rule("C18-R2", "SetSize of every backend reaches a resize event that is posted, and does not resize the logical buffer itself before the size comparison")
 	c.Rule("C18-R3", "simscreen painter: dirty gate, clean after write, Sync = clear + Invalidate before draw, wide rune in the last column shown blank, four-sided cursor visibility test")
+	c.Rule("C18-R4", "the simulation decides 'not encodable' from the same observations as the terminfo screen (zero-length output, SUB first byte) and gives the encoder a destination of constant size >= 4")
+	c.Expect("C18-R4", 2)
 	c.Expect("C18-R1", 2)
 	c.Expect("C18-R2", 2)
 	c.Expect("C18-R3", 6)
@@ -58,6 +60,10 @@ func checkC18(c *Ctx) {
 		return
 	}
 	checkDirtyGate(c, p, dc, "C18-R3", isSimEmission, 2)
+	checkEncodeDst(c, p, dc, "C18-R4")
+	sa := encPredAtoms(dc)
+	c.Check(sa["T#0 == 0"] && sa["out[0] == 26"], "C18-R4", "(*simscreen).drawCell:failure-predicate", p.pos(dc.Pos()),
+		fmt.Sprintf("conditions on the encoder's results: %v (the terminfo screen falls back on zero length and on a SUB first byte; so must its test double)", sortedKeys(sa)))
 	checkDrawCellWidth(c, p, dc, "C18-R3")
 	// wide rune in the last column: a ' ' store under x > physw-width
 	okBlank := false
